@@ -66,6 +66,35 @@ REG['C16'] = dict(
     'sensor, operator, placement); non-trivial = a run segment with a stop '
     'condition was judged')
 
+REG['C17'] = dict(
+    oracle='c17', profiles=[('tv', 3, None), ('dyn', 1, None)],
+    quick=4000, thorough=150000,
+    vacuity=['dumps_checked', 'after_run', 'after_reset', 'after_continuation',
+             'F_STOP', 'exports', 'snapshots',
+             'subset_WormWheel:m', 'subset_WormWheel:mb', 'subset_WormGear:',
+             'subset_WormGear:d', 'subset_SpurGear:mbE', 'subset_SpurGear:mb',
+             'subset_HelicalGear:m', 'subset_DCMotor:i0', 'subset_DCMotor:'],
+    rule='chains with every subset of optional data per element kind, '
+    'schedules of run / continue / early stop / reset / rerun followed by '
+    'export and snapshot; distinct = (chain kinds, schedule, fired faults, '
+    'set of (kind, data subset) simulated); non-trivial = at least one state '
+    'dump checked variable by variable')
+REG['C18'] = dict(
+    oracle='c18', profiles=[('query', 1, None)],
+    quick=3000, thorough=100000,
+    vacuity=['snapshots', 'exports', 'snapshot_on_instant', 'snapshot_between',
+             'snapshot_selected_vars', 'snapshot_default_vars',
+             'snapshot_values', 'export_rows', 'F_IO',
+             'export_raised_under_fault'],
+    rule='simulated powertrains queried by snapshot (target on and between '
+    'instants, any time unit, variable subsets, output units) and export '
+    '(output units, seeded I/O faults: ENOSPC/EIO/EACCES at a byte of a file, '
+    'at open, at makedirs, at close); distinct = (chain kinds, schedule, fired '
+    'faults, (query, variable subset, fault kind)); non-trivial = a snapshot '
+    'or an export was compared value by value',
+    stubs=['external load function', 'ScriptedRule', 'RecordingRule',
+           'fault-injecting proxy over builtins.open / os.makedirs around export (real scratch directory underneath)'])
+
 NOT_APPLICABLE = [
     {'property_id': 'C05',
      'reason': 'stateless function of (value, from-unit, to-unit): no schedule, clock, fault, I/O or history for a simulator to act on; its quantifier is decided by exhaustive enumeration of unit pairs, a different technique (DESIGN.md section 6)'},
